@@ -15,6 +15,12 @@ V1 = ("OFXHEADER:100\r\nDATA:OFXSGML\r\nVERSION:102\r\nSECURITY:NONE\r\nENCODING
 V2 = '<?xml version="1.0" encoding="UTF-8"?>\r\n<?OFX OFXHEADER="200" VERSION="220" SECURITY="NONE" OLDFILEUID="NONE" NEWFILEUID="NONE"?>\r\n'
 SON = "<SIGNONMSGSRSV1><SONRS><STATUS><CODE>0</CODE><SEVERITY>INFO</SEVERITY></STATUS><DTSERVER>20200101</DTSERVER><LANGUAGE>ENG</LANGUAGE></SONRS></SIGNONMSGSRSV1>"
 
+# headers the broken bodies come with: plain v2 / v1, and v1 headers whose ENCODING and CHARSET contradict each other (what such a
+# file decodes to is nobody's business here - but it must not change how LATER files with ordinary headers are read)
+HEADERS = [V2, V1, V1.replace("ENCODING:USASCII", "ENCODING:UNICODE").replace("CHARSET:NONE", "CHARSET:1252"),
+           V1.replace("ENCODING:USASCII", "ENCODING:UTF-8").replace("CHARSET:NONE", "CHARSET:ISO-8859-1"),
+           V1.replace("ENCODING:USASCII", "ENCODING:UNICODE").replace("CHARSET:NONE", "CHARSET:ISO-8859-1")]
+
 BODIES = [
     "<OFX><SIGNONMSGSRSV1><SONRS><STATUS><CODE>0",                                  # truncated: four elements left open
     "<OFX>" + SON + "<BANKMSGSRSV1><STMTTRNRS><TRNUID>1</TRNUID></STMTRS></BANKMSGSRSV1></OFX>",  # end tag of something never opened
@@ -28,6 +34,7 @@ BODIES = [
     "<OFX><NOSUCHMSGSRSV1><X>1</X></NOSUCHMSGSRSV1></OFX>",
     "",
     "text only, no tags",
+    "<OFX>" + SON.replace("ENG", "caf\u00e9") + "</OFX>",                              # non-ASCII under whatever the header claims
 ]
 
 
@@ -45,9 +52,9 @@ def disturb(rng, idx=None):
     from ofxtools.Parser import OFXTree, TreeBuilder
 
     if idx is None:
-        idx = rng.randrange(len(BODIES) * 2)
+        idx = rng.randrange(len(BODIES) * len(HEADERS))
     body = BODIES[idx % len(BODIES)]
-    hdr = V1 if idx >= len(BODIES) else V2
+    hdr = HEADERS[(idx // len(BODIES)) % len(HEADERS)]
 
     def tokenizer():
         b = TreeBuilder()
